@@ -47,6 +47,8 @@ BASE = (
     S((R("b"), False)),
     ("slice", 1, 3),
     ("chain", ("self",)),
+    ("chain", ("X", ("xfer", "e1"), ("sel", spaces.P_C_GE_13))),
+    ("chain", ("X", ("xfer", "e1"), ("calc", "x", spaces.NEG_A), ("proj", ("a", "b", "c")))),
 )
 MENU = (
     ("calc", "z", spaces.A_PLUS_B),
